@@ -157,7 +157,14 @@ pub fn run_check(prop: &str, tier: &str) -> i32 {
         "C06" => histex_check(prop, tier, &[hp("dis", 4, 6), hp("disrot", 4, 5)], &["C06."], HX),
         "C07" => crate::ftamper::check_c07(prop, tier),
         "C08" => crate::ftamper::check_c08(prop, tier),
-        "C09" => histex_check(prop, tier, &[hp("args", 3, 4), hp("rot", 3, 4), hp("rotdel", 3, 4), hp("dis", 3, 4), hp("failrot", 3, 4), hp("trace", 3, 4), hp("recaps", 2, 3)], &["C09."], HX),
+        "C09" => {
+            let mut run = Run::new(prop, tier, "model_checking");
+            histex_part(&mut run, tier, &[hp("args", 3, 4), hp("rot", 3, 4), hp("rotdel", 3, 4), hp("dis", 3, 4), hp("failrot", 3, 4), hp("trace", 3, 4), hp("recaps", 2, 3)], &["C09."], HX);
+            // the contract of keygen / encaps / decaps over the structure x policy matrix (same
+            // attribute names in several dimensions, many targets, odd names)
+            crate::polmat::part_stride(&mut run, tier == "thorough", &["C09."], 3);
+            run.finish()
+        }
         "C10" => histex_check(prop, tier, &[hp("failrot", 3, 5), hp("args", 3, 4), hp("trace", 3, 5)], &["C10."], HX),
         "C11" => {
             let mut run = Run::new(prop, tier, "model_checking");
